@@ -18,6 +18,12 @@ def shape_key(case: dict) -> str:
     return json.dumps([fields, vals, case.get("variant", ""), case.get("split", 0), case.get("wo", "")])
 
 
+def pn(name: str) -> str:
+    """Python attribute name of a model field: several characters, so that a string is never
+    mistaken for a collection of one-letter names."""
+    return name + "_f" if name else name
+
+
 def class_source(case: dict) -> str:
     """Source of a dataclass whose validators log their invocation in CALLS and fail iff
     OUT[name] says so.  Dependencies are discovered by apischema through the AST, so every
@@ -34,13 +40,13 @@ def class_source(case: dict) -> str:
     def fields_block():
         out = []
         for f in case["fields"]:
-            md = f"alias({f['alias']!r})" if f["alias"] != f["name"] else None
+            md = f"alias({f['alias']!r})"
             tp = "InitVar[int]" if f["name"] == wo else "int"
             if f["req"]:
-                out.append(f"    {f['name']}: {tp}" + (f" = field(metadata={md})" if md else ""))
+                out.append(f"    {pn(f['name'])}: {tp}" + (f" = field(metadata={md})" if md else ""))
             else:
-                out.append(f"    {f['name']}: {tp} = field(default=0" + (f", metadata={md}" if md else "") + ")")
-        out.append(f"    def __post_init__(self{', ' + wo if wo else ''}):")
+                out.append(f"    {pn(f['name'])}: {tp} = field(default=0" + (f", metadata={md}" if md else "") + ")")
+        out.append(f"    def __post_init__(self{', ' + pn(wo) if wo else ''}):")
         out.append("        CTOR[0] += 1")
         if variant in ("method", "property"):
             for f in case["fields"]:
@@ -49,21 +55,24 @@ def class_source(case: dict) -> str:
                 if variant == "property":
                     out.append("    @property")
                 out.append(f"    def get_{f['name']}(self):")
-                out.append(f"        return self.{f['name']}")
+                out.append(f"        return self.{pn(f['name'])}")
         return out
 
     def validator_block(v):
         out = []
         args = []
         if v["fld"]:
-            args.append(repr(v["fld"]))
+            args.append(repr(pn(v["fld"])))
         explicit_default = v["fld"] and sorted(v["disc"]) == [v["fld"]]
         if v["disc"] and not explicit_default:
-            args.append("discard=[" + ", ".join(repr(d) for d in sorted(v["disc"])) + "]")
+            if len(v["disc"]) == 1:      # the documented raw-string form
+                args.append("discard=" + repr(pn(sorted(v["disc"])[0])))
+            else:
+                args.append("discard=[" + ", ".join(repr(pn(d)) for d in sorted(v["disc"])) + "]")
         elif not v["disc"] and v["fld"]:
             args.append("discard=[]")
         out.append(f"    @validator({', '.join(args)})" if args else "    @validator")
-        params = ", " + wo if wo and wo in v["deps"] else ""
+        params = ", " + pn(wo) if wo and wo in v["deps"] else ""
         out.append(f"    def {v['name']}(self{params}):")
         out.append(f"        CALLS.append({v['name']!r})")
         for d in sorted(v["deps"]):
@@ -74,7 +83,7 @@ def class_source(case: dict) -> str:
             elif variant == "property":
                 out.append(f"        self.get_{d}")
             else:
-                out.append(f"        self.{d}")
+                out.append(f"        self.{pn(d)}")
         msg = f"'VFAIL:{v['name']}'"
         out.append(f"        if OUT[{v['name']!r}]:")
         if v["style"] == "raise":
@@ -82,7 +91,7 @@ def class_source(case: dict) -> str:
         elif v["style"] == "yield" or not v["deps"]:
             out.append(f"            yield {msg}")
         else:
-            out.append(f"            yield get_alias(self).{first_dep(case, v)}, {msg}")
+            out.append(f"            yield get_alias(self).{pn(first_dep(case, v))}, {msg}")
         if v["style"] != "raise":
             out.append("        return")
             out.append("        yield")
